@@ -10,6 +10,9 @@ CLAIMED = {
  'C19': dict(cat='proof', tech='Coq termination/bound lemmas of the modelled loops + ASan/UBSan search over mutated, truncated and deep inputs',
    text='PARTIAL. Proved (unbounded): the hash-table probe ends within cap steps on every reachable table (any hash); qbe.c:zero() terminates, uses only 1/2/4/8-byte naturally aligned stores (store-table index in bounds, also for alignments > 8) that tile the range; the AVL path array never overflows and scanner/ladder loops are structurally terminating (C13, C15, C16 theorems). NOT proved: memory safety of the C heap structures - searched with an ASan+UBSan build of the snapshot on the corpus, hand-written edge cases, 6000 stacked token/byte mutants, truncations at token boundaries, 25 deep/long constructs (10^4 nesting, 10^6-byte tokens) and failing I/O; every ending other than status 0/1/2 is a finding keyed by its call-site signature.',
    note='Heap memory safety is not modelled (sanitizer-assisted search, not a proof). UBSan pointer-overflow (NULL+0 in arrayforeach) is deliberately excluded. CPU-time limits, not wall-clock, decide timeouts.'),
+ 'C05': dict(cat='proof', tech='Coq proofs (complete enumeration of the finite type universe by vm_compute; range analysis for literal typing; induction for compatibility) + tables regenerated from type.c/expr.c + unit and _Generic correspondence',
+   text='promote_spec, uac_spec (the five rules of 6.3.1.8), binop_type_spec for all 18 operators, unop/cond typing: proved over the complete finite universe 3 targets x 15 arithmetic types + enums x bit-field widths 1..64; hasint_spec and inttype_spec for every 64-bit value and all 24 suffix spellings; compat_refl/sym/spec against an inductive Compatible for all type nestings; pointer arithmetic, assignment and conditional typing rules. Tables (INTTYPE/FLTTYPE rows, typerank, limits[], alltargs, enum ladder) are re-read from the snapshot each run. The snapshot type.c/expr.c functions are called directly on 198k cases and 58k _Generic/sizeof/compatibility probes per run are compared with model, specification, clang (3 targets) and gcc.',
+   note='Trusted: Coq kernel, extraction, regex table readers, clang/gcc as second opinion for the specification; gen/c05_spec.py is a hand-kept Python copy of Spec/CTypes.v. typecomposite is a stub in the source (composite types outside the theorems). The recursive-descent parser is exercised, not modelled.'),
  'C15': dict(cat='proof', tech='Coq proofs (AVL invariant by induction over insertions, Fibonacci height bound, ladder correctness) + shape-exact correspondence',
    text='avl_inv: for every insertion sequence tree.c (model) keeps a strict search tree, AVL balance and exact stored heights; new flag = key absent; balanced height h needs fib(h+2)-1 nodes, so the path array (MAXH) never overflows and the emitted ladder is logarithmic; convert_canonical + casesearch_correct + switch_correct: after the conversion to the promoted type the comparison ladder reaches exactly the matching case, else default, and duplicates after conversion are diagnosed. Model tied to tree.c by all 46233 insertion orders of <= 8 keys (shape/height/flag exact) and long random sequences, and to the compiler by generated switch units whose emitted ladders are parsed and evaluated on keys, neighbours and type limits for all three targets.',
    note='Trusted: Coq kernel, extraction, the Python ladder parser/evaluator and C-semantics oracle (cross-checked with gcc); tree.c/qbe.c correspond to the model by testing; statement-level placement of case labels (stmt.c) exercised through the CLI only.'),
